@@ -333,13 +333,11 @@ def normalize_url(
     if query:
         domain_filter = None
 
-        if splitted.hostname:
+        # NOTE: the decoded hostname, else a punycode label ending like a
+        # filtered domain ("xn--bbfacebook.com") would be taken for it
+        if hostname:
             domain_filter = next(
-                (
-                    f
-                    for d, f in PER_DOMAIN_QUERY_FILTERS
-                    if splitted.hostname.endswith(d)
-                ),
+                (f for d, f in PER_DOMAIN_QUERY_FILTERS if hostname.endswith(d)),
                 None,
             )
 
